@@ -105,6 +105,26 @@ Next == \E p \in Procs : RefuseLink(p) \/ TryLockOK(p) \/ TryLockBusy(p) \/ Wake
                          \/ ActFails(p) \/ Unlock(p) \/ Crash(p)
 Spec == Init /\ [][Next]_vars
 
+\* ---- scenarios: states every replay campaign must reach (TLC finds a shortest behaviour to each by refuting its negation;
+\*      the behaviours are then replayed with real processes)
+InCSx(p) == pc[p] \in {"locked", "compared", "acted"}
+\* hand-over with a late arrival: a first holder is through, a process that waited for it is inside its critical section, and a
+\* third process arriving only now has made its first attempt
+ScenarioLateArrival == \E a, b, c \in Procs : /\ a # b /\ b # c /\ a # c
+                                                /\ pc[a] \in {"done", "raised"} /\ tries[a] = 1
+                                                /\ InCSx(b) /\ tries[b] >= 2
+                                                /\ tries[c] = 1 /\ pc[c] = "sleep"
+\* the holder was killed inside its critical section and another process got the lock afterwards
+ScenarioCrashRelease == \E a, b \in Procs : a # b /\ pc[a] = "crashed" /\ tries[a] = 1 /\ InCSx(b) /\ tries[b] >= 2
+\* the copy of the holder failed and another process got the lock afterwards
+ScenarioFailRelease == \E a, b \in Procs : a # b /\ err[a] = "io" /\ pc[a] = "raised" /\ InCSx(b) /\ tries[b] >= 2
+\* a waiter gave up while the holder is still inside
+ScenarioTimeout == \E a, b \in Procs : a # b /\ InCSx(a) /\ err[b] = "timeout"
+NoLateArrival == ~ScenarioLateArrival
+NoCrashRelease == ~ScenarioCrashRelease
+NoFailRelease == ~ScenarioFailRelease
+NoTimeoutScenario == ~ScenarioTimeout
+
 \* ---- properties
 InCS(p) == pc[p] \in {"locked", "compared", "acted"}
 MutualExclusion == \A p, q \in Procs : InCS(p) /\ InCS(q) => p = q
